@@ -123,8 +123,11 @@ def main(argv=None):
     active = {}
     kf_lines = []
     kf_replayed = []
+    selected_units = {verify.UNITS[i].unit_name() for (i, j) in select_units(prop, args.tier, args.unit)}
     for f in known.get("findings", []):
-        if f["property"] != prop:
+        # a finding is loaded by the check of its own property, and by every other check that runs the unit the
+        # finding is about (the carve-out must be active wherever that unit's obligations are evaluated)
+        if f["property"] != prop and f["unit"] not in selected_units and f.get("carrier_of") not in selected_units:
             continue
         unit = next((u for u in verify.UNITS if u.unit_name() == f["unit"]), None)
         still = None
@@ -136,7 +139,7 @@ def main(argv=None):
                 still, detail = None, "witness replay crashed: " + traceback.format_exc()[-500:]
         if still:
             active[f["id"]] = True
-            kf_lines.append(f"KNOWN-FINDING: property={prop} {f['what']}")
+            kf_lines.append(f"KNOWN-FINDING: property={f['property']} {f['what']}")
         kf_replayed.append({"id": f["id"], "still_fails": still, "detail": str(detail)[:500]})
     tasks = [(i, j, args.tier, active) for (i, j) in select_units(prop, args.tier, args.unit)]
     if not tasks:
